@@ -58,3 +58,71 @@ def steps(graph, before):
 
 def rel_close(a, b, rel, floor=0.0):
     return abs(a - b) <= rel * max(abs(a), abs(b)) + floor
+
+
+def gn_step_oracle(ctx, case, g, ff, S_, check_report=True):
+    """One optimizer iteration on the live graph `g` is exactly the Gauss-Newton step of the dense reference system
+    reduced to the free coordinates (C03; reused by C06).  Returns True if a failure was reported or the case discarded."""
+    fixed = expected_fixed(case, ff)
+    before = RG.poses_snapshot(g)
+    sys0 = RG.system(g)
+    free = RG.free_indices(g, fixed)
+    H, b = sys0["H"], sys0["b"]
+    chi_before = sys0["chi2"]
+    sl = sys0["slices"]
+    cond = 1.0
+    if len(free):
+        Hff, bf = H[np.ix_(free, free)], b[free]
+        cond = float(np.linalg.cond(Hff))
+        if not np.isfinite(cond) or cond > 1e10:
+            ctx.event("discarded:ill-conditioned")
+            return True
+        dpred = np.linalg.solve(Hff, -bf)
+        full = np.zeros(sys0["N"])
+        full[free] = dpred
+        for v, s in zip(g._vertices, sl):
+            if gs.kind_of(v.pose) == "se3" and float(np.linalg.norm(full[s][3:])) >= 0.9:
+                ctx.event("discarded:rot-step>=0.9")
+                return True
+
+    ret, _ = optimize_quiet(g, tol=0.0, max_iter=1, fix_first_pose=ff, verbose=False)
+    if not all_finite(g):
+        return ctx.fail("nonfinite-poses", "poses are not finite after one iteration of a well-posed graph") or True
+    d = steps(g, before)
+
+    # (1) fixed vertices have zero step
+    for i, (v, s) in enumerate(zip(g._vertices, sl)):
+        if fixed[i]:
+            k = gs.kind_of(v.pose)
+            dt, dr = pose_diff(k, before[i], gs.stored(v.pose))
+            if dt != 0.0 or dr > 4 * 4.5e-16:
+                return ctx.fail("fixed-vertex-moved", "fixed vertex #%d (id %r) moved by (%.3e, %.3e)" % (i, v.id, dt, dr)) or True
+
+    if len(free):
+        df = d[free]
+        nH = float(np.linalg.norm(Hff, 2))
+        res = float(np.linalg.norm(Hff @ df + bf))
+        tol_res = 1e-9 * (nH * float(np.linalg.norm(df)) + float(np.linalg.norm(bf))) + 1e-12 * (1 + S_) * nH
+        ctx.deviation("backward residual", res, tol_res)
+        if not (res <= tol_res):
+            return ctx.fail("not-the-gauss-newton-step", "|H_ff d + b_f| = %.3e > %.3e (|d|=%.3e, cond=%.2e)" % (res, tol_res, float(np.linalg.norm(df)), cond)) or True
+        err = float(np.abs(df - dpred).max())
+        tol_d = 1e-9 * cond * (1 + float(np.abs(dpred).max()))
+        ctx.deviation("step vs -H^-1 b", err, tol_d)
+        if not (err <= tol_d):
+            return ctx.fail("not-the-gauss-newton-step", "max|d - d_ref| = %.3e > %.3e" % (err, tol_d)) or True
+
+    if check_report:
+        maxinfo = max(float(np.abs(np.array(e["info"])).max()) for e in case["edges"]) if case["edges"] else 1.0
+        floor = 1e-12 * maxinfo * (1 + S_) ** 2
+        if ret.initial_chi2 is None or not rel_close(float(ret.initial_chi2), chi_before, 1e-9, floor):
+            return ctx.fail("initial-chi2", "initial_chi2=%r reference=%r" % (ret.initial_chi2, chi_before)) or True
+        chi_after = RG.chi2(g)
+        if ret.final_chi2 is None or not rel_close(float(ret.final_chi2), chi_after, 1e-9, floor):
+            return ctx.fail("final-chi2", "final_chi2=%r reference chi2 of returned state=%r" % (ret.final_chi2, chi_after)) or True
+        if ret.num_iterations != 1:
+            return ctx.fail("num-iterations", "num_iterations=%r after max_iter=1" % (ret.num_iterations,)) or True
+    flags = [bool(v.fixed) for v in g._vertices]
+    if flags != fixed:
+        return ctx.fail("fixed-flags", "fixed flags after optimize %r, expected %r" % (flags, fixed)) or True
+    return False
